@@ -178,6 +178,25 @@ def programs(rng, tier):
         b = rand_operand(rng, rng.choice([0, 1, 2, 3, 5, 8]), 0.4) if k < 0.7 else gap_bdd(rng) if k < 0.9 else chain(rng, rng.randint(3, 400), nv=rng.choice([500, 65535]))
         P.add_prog([["a", "to_nodes", bdd_sx(b)], ["b", "from_nodes", "$a"]])
     progs += P.progs
+    # node counts at and around powers of two and multiples of 512 (a writer or reader that batches nodes meets a batch that is
+    # exactly full), plain and through schedules with LONG runs of interruptions (9, 10, 20, 100 in a row, also inside a record)
+    for n in ([256, 511, 512, 513, 1024, 1536] if tier == "quick" else [64, 128, 255, 256, 257, 511, 512, 513, 1023, 1024, 1025, 1536, 2048, 4096, 8192]):
+        b = chain(rng, n, nv=rng.choice([2000, 65535]))
+        nb, nt = 10 * n, len(py_to_text(b))
+
+        def bursty(total, maxchunk):
+            ev = random_clean_schedule(rng, total, maxchunk=maxchunk)
+            for _ in range(3):
+                i = rng.randrange(len(ev) + 1)
+                ev = ev[:i] + [("I",)] * rng.choice([8, 9, 10, 20, 100]) + ev[i:]
+            return ev
+        progs.append([["a", "id", bdd_sx(b)], ["y", "to_bytes", "$a"], ["s", "to_string", "$a"], ["fb", "from_bytes", "$y"], ["fs", "from_string", "$s"],
+                      ["r0", "read_bytes_sched", "$y", sched_sx([])],
+                      ["r1", "read_bytes_sched", "$y", sched_sx(bursty(nb, 7))],
+                      ["r2", "read_string_sched", "$s", sched_sx(bursty(nt, 13))],
+                      ["w0", "write_bytes_sched", "$a", sched_sx([])],
+                      ["w1", "write_bytes_sched", "$a", sched_sx(bursty(nb, 4096))],
+                      ["w2", "write_string_sched", "$a", sched_sx(bursty(nt, 64))]])
     # long streams: > 65,536 nodes (3-byte pointers), 16-bit variables
     for n in ([65600, 70001] if tier == "quick" else [65537, 65600, 70001, 90000, 131073]):
         b = chain(rng, n)
